@@ -411,11 +411,11 @@ PROPS["C04"] = pbt(
     technique="coverage-guided fuzzing (libFuzzer, byte-level + structure-aware) and property-based near-grammar mutation (rapidcheck) with invariants inside the target",
     level_text=("fuzzing with semantic invariants inside the target (documented return codes, no object after a failed "
                 "read, NULL-terminated lists, determinism, inputs of a merge unchanged) under ASan/UBSan/LSan. Quick: "
-                "corpus replay + 2 targets x 4 processes x 25k runs + 48k near-grammar cases; thorough: 2 x 8 x 2M runs "
+                "corpus replay + 2 targets x 4 processes x 25k runs + 48k near-grammar cases; thorough: 2 x 8 x 600k runs "
                 "+ 3M near-grammar cases."),
     level_note="libFuzzer campaigns are only approximately reproducible from a seed; the saved artifact is the reproducible unit. Timeouts count only if reproducible at 10x the limit.",
     quick={"cases": 48000, "fuzz_runs": 25000, "fuzz_jobs": 4},
-    thorough={"cases": 3000000, "fuzz_runs": 2000000, "fuzz_jobs": 8},
+    thorough={"cases": 3000000, "fuzz_runs": 600000, "fuzz_jobs": 8},
     floors={"parsed_with_entries": 0.40, "rejected_with_parse_error": 0.05, "merged_pair": 0.15, "edited": 0.30},
 )
 
@@ -440,7 +440,7 @@ PROPS["C19"] = pbt(
 )
 
 PROPS["C18"] = pbt(
-    "pbt_c18", "pbt_c18.cpp", variant="tsan",
+    "pbt_c18", "pbt_c18.cpp", variant="tsan", racy_replays=8, isolate_shards=6,
     env={"TSAN_OPTIONS": "exitcode=66:halt_on_error=0:suppressions=/verif/tsan.supp:report_signal_unsafe=0:history_size=3"},
     rule=("2-16 thread programs of 20-120 operations each over private objects (3 slots), private generated files "
           "(some malformed) and a private two-layer tree: constructors, typed setters, typed/defaulted/extended "
